@@ -130,18 +130,106 @@ def history_case(rng):
             "coq": coq, "nontrivial": len(all_mats) >= 1 and sum("EvExec" in e for e in events) >= 2, "key": coq}
 
 
+def processor_history(rng):
+    """Several process()+execute calls, by one real Processor, over trees that share a materialization node whose
+    upstream crosses engines (and may hold a chain with a statically empty branch, pruned by the Processor)."""
+    import sqlalchemy
+    import multiprog as mp
+    w = mp.World()
+    cols = gen.gen_schema(rng, maxk=2, maxn=1, allow_empty=False)
+    rows = gen.gen_rows(rng, cols, 4)
+    payload = CountingSequence([dict(r) for r in rows])
+    src = w.engine(("it", 0))
+    leaf = src.make_leaf(set(cols), payload=payload, name="L1")
+    dest = w.engine(rng.choice([("it", 1), ("sql", 0)]))
+
+    def some_ops(rel, k):
+        for _ in range(k):
+            o, _c = gen.gen_op(rng, set(rel.columns), weights=[1, 0, 2, 3, 0, 0])
+            try:
+                rel = mp.apply_un(rel, o, mp.DEFAULT, w)
+            except Exception:  # noqa: BLE001
+                pass
+        return rel
+    x = some_ops(some_ops(leaf, rng.choice([0, 1])).transferred_to(dest), rng.choice([0, 1, 2]))
+    shape = rng.choice(["plain", "doomed_rhs", "doomed_lhs", "doomed_rhs"])
+    if shape != "plain":
+        doomed = dest.make_doomed_relation(set(x.columns), ["doomed by the harness"], name="D")
+        x = x.chain(doomed) if shape == "doomed_rhs" else doomed.chain(x)
+    m = x.materialized(name="M1")
+    mats = {1: m} if isinstance(m, dr.Materialization) or hasattr(m, "target") else {}
+    trees = [m, some_ops(m, 1), some_ops(m, 2)]
+    if rng.random() < 0.5:
+        other = w.engine(("it", 1)) if dest is not w.engine(("it", 1)) else w.engine(("it", 0))
+        trees.append(trees[1].transferred_to(other))
+
+    def find_mats(rel):
+        out, stack = [], [rel]
+        while stack:
+            r = stack.pop()
+            if isinstance(r, dr.Materialization):
+                out.append(r)
+            for a in ("target", "lhs", "rhs"):
+                if hasattr(r, a):
+                    stack.append(getattr(r, a))
+        return out
+    all_mats = {}
+    for t in trees:
+        for mm in find_mats(t):
+            all_mats[id(mm)] = mm
+    order = {k: i + 1 for i, k in enumerate(all_mats)}
+    payloads, seen, events = [], {}, []
+    db = sqlalchemy.create_engine("sqlite://")
+    try:
+        with db.connect() as conn:
+            proc = mp.RealProcessor(w, conn)
+            for k in range(rng.choice([2, 3, 4])):
+                t = rng.choice(trees)
+                events.append(str(t))
+                try:
+                    proc._rows_of(proc.process(t))
+                except Exception as e:  # noqa: BLE001 — whether processing succeeds is C07's concern
+                    events[-1] += f"  (raised {type(e).__name__})"
+                now = []
+                for key, mm in all_mats.items():
+                    if mm.payload is not None:
+                        seen.setdefault((key, id(mm.payload)), k)
+                        now.append((order[key], seen[(key, id(mm.payload))]))
+                payloads.append(now)
+    finally:
+        db.dispose()
+        for t in list(w.meta.tables.values()):
+            if t.name.startswith("tmp_"):
+                w.meta.remove(t)
+    evals = [(1, payload.iterations)] if all_mats else []
+    coq = (f"PHCase {clist([clist([f'({n}%positive, {s}%nat)' for n, s in pl]) for pl in payloads])} "
+           f"{clist([f'({n}%positive, {c}%nat)' for n, c in evals])}")
+    return {"json": {"shape": shape, "destination": str(dest), "events": events, "payloads_after_each_event": payloads,
+                     "leaf_iterations": evals},
+            "coq": coq, "nontrivial": bool(all_mats) and len(events) >= 2, "key": coq + "".join(events)}
+
+
 def run(ctx):
     rng = random.Random(ctx.seed)
     s1 = core.s1(ctx, ["Slice"], "Properties.C10", THEOREMS, extra_targets=["Model/CheckStore.vo"])
     n = 300 if ctx.tier == "quick" else 5000
     cases = [history_case(rng) for _ in range(n)]
+    pcases = [processor_history(rng) for _ in range(n // 3)]
+    psumm = core.judge(ctx, pcases, HDR, "check_phist", prefix="cases_C10p", shard=100,
+                       bits={4: "over a history of process() calls a payload changed or disappeared, or the upstream of a "
+                                "materialization was evaluated more than once"})
     bits = {1: "outcomes or payload sets differ from the model's history",
             4: "a payload changed or disappeared, an upstream tree was evaluated more than once, or an attachment was wrongly accepted"}
     summ = core.judge(ctx, cases, HDR, "check_hist", bits=bits, shard=100)
-    core.conclude_s1(ctx, s1, summ["spec_failures"] > 0 or bool(ctx.violations))
+    core.conclude_s1(ctx, s1, summ["spec_failures"] + psumm["spec_failures"] > 0 or bool(ctx.violations))
     ctx.coverage.update({
-        "evaluations": len(cases), "distinct_nontrivial": len({c["key"] for c in cases if c["nontrivial"]}),
-        "rule": "random histories of execute() and attach_payload() calls over iteration-engine trees that share "
+        "evaluations": len(cases) + len(pcases),
+        "distinct_nontrivial": len({c["key"] for c in cases + pcases if c["nontrivial"]}),
+        "processor_histories": psumm,
+        "rule": "(b) histories of process()+execute by one real SQLite<->iteration Processor over trees sharing a materialization "
+                "whose upstream crosses engines, with chains that have a statically empty branch on either side; the counting "
+                "leaf below the materialization may be read at most once over the whole history. "
+                "(a) random histories of execute() and attach_payload() calls over iteration-engine trees that share "
                 "materialization node objects (including nested materializations and chains of the same node); after every "
                 "event the payload object of every materialization is identified, leaf payloads count their iterations; "
                 "non-trivial = at least one shared materialization and two executions",
@@ -149,7 +237,7 @@ def run(ctx):
         "samples": [cases[0]["json"], cases[-1]["json"]],
     })
     ctx.assumptions += ["materialization names identify node objects (the harness gives every node a unique name)",
-                        "Processor.process histories are covered by C07's check"]
+                        "the hook protocol of Processor.process itself is C07's; here only payload stability and evaluation counts"]
 
 
 def replay(ctx, path):
